@@ -122,3 +122,17 @@ func init() {
 		os.Exit(0)
 	}
 }
+
+func init() {
+	if len(os.Args) > 4 && os.Args[1] == "callers" {
+		p := Load(LoadOpts{Dir: repoDir(), Patterns: []string{"./..."}, ModPath: modPath, MinPkgs: 13})
+		f := p.Func(os.Args[2], os.Args[3], os.Args[4])
+		for _, e := range p.CG().Nodes[f].In {
+			fmt.Printf("%s  site=%v pos=%s\n", p.FnName(e.Caller.Func), e.Site, p.IPos(e.Site))
+			for i, a := range e.Site.Common().Args {
+				fmt.Printf("    arg%d %T %v : %s\n", i, a, a, a.Type())
+			}
+		}
+		os.Exit(0)
+	}
+}
